@@ -373,11 +373,20 @@ def _one(modkey, reply, schedule):
             upd.join = join
             old = mod.updater
             mod.updater = upd
+            jump = _mods.get("jump", 0.0)
+            saved_clocks = {}
+            if jump:
+                # the command body "took" `jump` seconds: every clock an implementation could consult moves on
+                for nm in ("time", "monotonic", "perf_counter"):
+                    saved_clocks[nm] = getattr(time, nm)
+                    setattr(time, nm, (lambda f: (lambda: f() + jump))(saved_clocks[nm]))
             try:
                 mod.update()
             except BaseException as e:  # noqa
                 main_exc = e
             finally:
+                for nm, f in saved_clocks.items():
+                    setattr(time, nm, f)
                 mod.updater = old
             s.finish("M")
         release.set()
@@ -409,6 +418,9 @@ def _sched_case(cs):
     _lg.verbose_logging = rng.random() < 0.4
     _lg.debug_logging = False
     name = name + ("+verbose" if _lg.verbose_logging else "")
+    _load_cli()
+    _mods["jump"] = rng.choice([0.0, 0.0, 0.9, 1.5, 30.0, 4000.0])
+    name = name + ("+slowcmd" if _mods["jump"] else "")
     free = _one(modkey, reply, "")
     nT = sum(1 for t in free["trace"] if t[0] == "T") + 2
     nM = sum(1 for t in free["trace"] if t[0] == "M") + 2
@@ -454,6 +466,7 @@ def _sched_case(cs):
         if r["daemon"] is not True:
             cs.violation("checker-thread-not-daemon", {"kind": "daemon-flag"}, ctx)
     _lg.verbose_logging = False
+    _mods["jump"] = 0.0
     cs.count("distinct_schedule_traces", len(traces))
     for t in traces:
         cs.cls("sched", name, hash(t) % 10**9)
